@@ -68,11 +68,11 @@ func runC04(r *Report) {
 			must("close the cache store", func(in ssa.Instruction) bool { _, ok := CallTo(in, "iface:rueidis.CacheStore.Close"); return ok }, ".cache")
 			must("call the option's invalidation callback with nil", func(in ssa.Instruction) bool {
 				c, ok := in.(*ssa.Call)
-				return ok && c.Call.StaticCallee() == nil && !c.Call.IsInvoke() && strings.HasSuffix(DescDeep(c.Call.Value), ".onInvalidations") && !strings.HasSuffix(DescDeep(c.Call.Value), ".hooks.onInvalidations") && len(c.Call.Args) == 1 && IsNilConst(c.Call.Args[0])
+				return ok && c.Call.StaticCallee() == nil && !c.Call.IsInvoke() && strings.HasSuffix(ValueDescThroughParam(c.Call.Value), ".onInvalidations") && !strings.HasSuffix(ValueDescThroughParam(c.Call.Value), ".hooks.onInvalidations") && len(c.Call.Args) == 1 && IsNilConst(c.Call.Args[0])
 			}, ".onInvalidations")
 			must("call the hook's invalidation callback with nil", func(in ssa.Instruction) bool {
 				c, ok := in.(*ssa.Call)
-				return ok && c.Call.StaticCallee() == nil && !c.Call.IsInvoke() && strings.HasSuffix(DescDeep(c.Call.Value), ".hooks.onInvalidations") && len(c.Call.Args) == 1 && IsNilConst(c.Call.Args[0])
+				return ok && c.Call.StaticCallee() == nil && !c.Call.IsInvoke() && strings.HasSuffix(ValueDescThroughParam(c.Call.Value), ".hooks.onInvalidations") && len(c.Call.Args) == 1 && IsNilConst(c.Call.Args[0])
 			}, ".hooks.onInvalidations")
 			must("wait for the writer to exit", func(in ssa.Instruction) bool {
 				u, ok := in.(*ssa.UnOp)
